@@ -22,6 +22,7 @@ import (
 	"sort"
 	"strings"
 	"syscall"
+	"unsafe"
 
 	"github.com/hneemann/parser2"
 	"github.com/hneemann/parser2/funcGen"
@@ -61,10 +62,152 @@ func c02Setup() {
 	c01FgOn = c02NewGenerator()
 	c01FgOff = c02NewGenerator()
 	c01FgOff.SetOptimizer(nil)
+	c02FgDump = c02NewGenerator()
+	c02DumpSpy = &c02Spy{inner: funcGen.VerifOptimizer(c02FgDump.FunctionGenerator), clos: map[uintptr]string{}}
+	c02FgDump.SetOptimizer(c02DumpSpy)
 	c01Statics = map[string]bool{}
 	for _, f := range c01FgOn.VerifStaticFunctions() {
 		c01Statics[f.Name] = true
 	}
+}
+
+// ---------- the AST tie: the REAL optimized AST as a Coq term ----------
+//
+// A third generator instance (same configuration) whose optimizer is wrapped by a spy: the optimized AST
+// that is dumped is never used to generate code, so forcing a lazy constant list for the dump cannot
+// influence the observed evaluations.  What is printed and how:
+//   * int/float/string/bool constants: exactly (floats as sign/mantissa/exponent of the binary64 value);
+//   * list constants: by content (a lazy list is forced; a list whose forcing fails or panics is
+//     "not comparable"); map constants: entries in the iteration order of the map;
+//   * closure constants: a closure value is opaque Go code.  The spy sees every application of the
+//     closure-literal rule (input *ClosureLiteral, output *Const) and records, under the identity of the
+//     generated function object, the parameter names and the (already optimized) body of that literal:
+//     such a constant is printed as VClo names body [] [] wherever the value turns up later (also inside
+//     lists/maps and after constant propagation through a let).  A closure that generated code computed at
+//     Generate time (a constant closure applied to constants returning a closure ...) has no source: the
+//     case is "not comparable".
+type c02Spy struct {
+	inner parser2.Optimizer
+	clos  map[uintptr]string // identity of closure.Func -> Coq value term, "" = ambiguous
+	keep  []value.Closure    // keeps the function objects alive (no address reuse within a case)
+}
+
+func c02FuncID(f funcGen.ParserFunc[value.Value]) uintptr {
+	return *(*uintptr)(unsafe.Pointer(&f))
+}
+
+func (s *c02Spy) Optimize(a parser2.AST) parser2.AST {
+	res := s.inner.Optimize(a)
+	if cl, ok := a.(*parser2.ClosureLiteral); ok {
+		if c, ok := res.(*parser2.Const[value.Value]); ok {
+			if clo, ok := c.Value.(value.Closure); ok {
+				term := ""
+				func() {
+					defer func() {
+						if r := recover(); r != nil {
+							term = ""
+						}
+					}()
+					term = "(VClo " + pgCoqNames(cl.Names) + " " + c01DumpAst(cl.Func) + " [] [])"
+				}()
+				id := c02FuncID(clo.Func)
+				if old, ok := s.clos[id]; ok && old != term {
+					term = ""
+				}
+				s.clos[id] = term
+				s.keep = append(s.keep, clo)
+			}
+		}
+	}
+	return res
+}
+
+var c02FgDump *value.FunctionGenerator
+var c02DumpSpy *c02Spy
+
+func c02DumpValue(v value.Value) string {
+	switch c := v.(type) {
+	case value.Int:
+		return "(VInt " + pgCoqZ(int64(c)) + ")"
+	case value.Float:
+		return "(VFloat " + pgCoqFloat(float64(c)) + ")"
+	case value.String:
+		return "(VStr " + CoqStr(string(c)) + ")"
+	case value.Bool:
+		return "(VBool " + CoqBool(bool(c)) + ")"
+	case *value.List:
+		var sl []value.Value
+		var err error
+		func() {
+			defer func() {
+				if r := recover(); r != nil {
+					err = fmt.Errorf("panic: %v", r)
+				}
+			}()
+			sl, err = c.ToSlice(funcGen.NewEmptyStack[value.Value]())
+		}()
+		if err != nil {
+			panic(c01DumpErr{"a constant list cannot be forced"})
+		}
+		parts := make([]string, len(sl))
+		for i, it := range sl {
+			parts[i] = c02DumpValue(it)
+		}
+		return "(VList " + CoqList(parts) + ")"
+	case value.Map:
+		var es []string
+		c.Iter(func(k string, v value.Value) bool {
+			es = append(es, "("+CoqStr(k)+", "+c02DumpValue(v)+")")
+			return true
+		})
+		return "(VMap " + CoqList(es) + ")"
+	case value.Closure:
+		if t, ok := c02DumpSpy.clos[c02FuncID(c.Func)]; ok && t != "" {
+			return t
+		}
+		panic(c01DumpErr{"closure constant computed by generated code at Generate time"})
+	}
+	panic(c01DumpErr{fmt.Sprintf("constant of type %T", v)})
+}
+
+// c02DumpOn: the AST the real parser returns WITH the optimizer, as a Coq term; reason != "": not comparable
+func c02DumpOn(text string, names []string) (term string, reason string, astText string) {
+	c02DumpSpy.clos = map[uintptr]string{}
+	c02DumpSpy.keep = nil
+	c01DumpConstExt = c02DumpValue
+	defer func() {
+		c01DumpConstExt = nil
+		if r := recover(); r != nil {
+			term = ""
+			if d, ok := r.(c01DumpErr); ok {
+				reason = d.what
+				return
+			}
+			reason = "panic in the parser"
+		}
+	}()
+	ast, err := c02FgDump.CreateAst(text, c02FgDump.Identifier().AddArgs(names, nil))
+	if err != nil {
+		return "", "parse error with the optimizer", ""
+	}
+	astText = ast.String()
+	return c01DumpAst(ast), "", astText
+}
+
+var c02TieReasons = []string{
+	"parse error with the optimizer",
+	"closure constant computed by generated code at Generate time",
+	"a constant list cannot be forced",
+	"panic in the parser",
+}
+
+func c02TieReasonCode(reason string) int {
+	for i, r := range c02TieReasons {
+		if r == reason {
+			return i + 1
+		}
+	}
+	return len(c02TieReasons) + 1 // other (constant of an unmodelled type)
 }
 
 func c02TickKey() string {
@@ -417,8 +560,31 @@ func (r *c02State) runCase(p *pgProgram, id int) {
 		sum.Sample(map[string]any{"text": text, "args": hargs, "ast_optimizer_on": on.astText, "implementation_optimizer_on": hon})
 	}
 	bound := append([]string{}, p.ArgNames...)
-	r.cw.Add(fmt.Sprintf("(%d, %s,\n  %s,\n  %s, (%s, %s),\n  %s)", id, spec.CoqT(bound, c01Statics), aTerm, pgCoqNames(p.ArgNames),
-		CoqBool(lazy), CoqBool(excl), CoqList(tuples)))
+	// the real optimized AST for the node-by-node tie with the optimizer model
+	realTerm := "(RNotComparable 0)"
+	if perr == nil {
+		onTerm, reason, dumpText := c02DumpOn(text, p.ArgNames)
+		if dumpText != "" && dumpText != on.astText {
+			// the spied generator is configured like the observed one: its optimized AST prints the same
+			reason = "panic in the parser"
+			sum.Count("ast_tie_dump", "SANITY: the spied generator instance returned a different optimized AST than the observed one")
+		}
+		if reason == "" {
+			realTerm = "(RAst " + onTerm + ")"
+			sum.Count("ast_tie_dump", "real optimized AST dumped as a Coq term")
+		} else {
+			realTerm = fmt.Sprintf("(RNotComparable %d)", c02TieReasonCode(reason))
+			sum.Count("ast_tie_dump", "not comparable: "+reason)
+			if rewritten {
+				sum.Count("ast_tie_dump", "not comparable although the optimizer rewrote the AST: "+reason)
+			}
+		}
+		human["ast_tie_dump"] = reason
+	} else {
+		sum.Count("ast_tie_dump", "no AST (parse error without optimizer)")
+	}
+	r.cw.Add(fmt.Sprintf("((%d, %s,\n  %s,\n  %s, (%s, %s),\n  %s),\n  %s)", id, spec.CoqT(bound, c01Statics), aTerm, pgCoqNames(p.ArgNames),
+		CoqBool(lazy), CoqBool(excl), CoqList(tuples), realTerm))
 
 	// ---- Go-side oracles
 	if on.genTicks != "" || off.genTicks != "" {
@@ -818,6 +984,8 @@ func cmdC02(seed int64, tier, outDir string) {
 			return
 		}
 		cw.epilogue += "Definition c02_expected := Eval vm_compute in map c02_explain cases.\nPrint c02_expected.\n"
+		// the AST tie of the replayed case: its class (Run/C02Run.v c02_tie_class) and the tree the optimizer MODEL returns
+		cw.epilogue += "Definition c02_tie := Eval vm_compute in map (fun c => (c02_tie_class c, c02_model_tree c)) cases.\nPrint c02_tie.\n"
 		run.runCase(&p, 1)
 		finish()
 		return
